@@ -587,6 +587,26 @@ try:
         nf = rng.choice([0, 1, 2, 4, 7])
         if only is None or f'numpy-{idx}' in only:
             numpy_case(f'numpy-{idx}', nf, ints)
+    # ---- header keys that are TraceField codes but not fields of the 89-entry table must be refused, not written (D36)
+    if only is None:
+        for code in sorted(set(int(v) for v in segyio.tracefield.keys.values()) - set(FIELDS)):
+            p = os.path.join(d, 'np_out.sgz')
+            inp = {'case': f'numpy-key-{code}', 'fields': {str(code): 'int32'}, 'seed': a.seed}
+            grid = np.arange(15).reshape(3, 5).astype(np.int32)
+            try:
+                write_numpy_sgz(p, np.zeros((3, 5, 8), dtype=np.float32), bpv=8, trace_headers={code: grid})
+                try:
+                    with SgzReader(p) as r:
+                        ok = np.array_equal(r.get_tracefield_values(code), grid) and os.path.getsize(p) == SpecFile(p).expected_length()
+                except Exception as e:
+                    ok = False
+                if not ok:
+                    R.violation('oracle', inp, f'NumPy route accepted header key {code}, which is not one of the 89 table fields, and wrote '
+                                               f'a file that does not read back', finding_key='D36-numpy-unassigned-fields')
+            except AssertionError:
+                pass
+            R.case(('numpy-key', code), True)
+            R.count('numpy_foreign_key')
     # ---- run the model on everything collected
     if os.environ.get('C04_DUMP_TERMS'):
         json.dump([[i, t] for i, t, _ in model_jobs], open(os.environ['C04_DUMP_TERMS'], 'w'))
